@@ -9,6 +9,7 @@ import Apimodel.SerSchema
 import Apimodel.Refs
 import Apimodel.Versions
 import Apimodel.Generics
+import Apimodel.Aggregate
 import Apimodel.AcceptThm
 import Apimodel.NoCrashThm
 import Apimodel.ErrorsThm
@@ -398,6 +399,19 @@ def handle (line : String) : String :=
           pure (Json.mkObj [("id", id), ("fields", fj (Generics.renderFields res)),
                             ("appearance_order", fj (Generics.renderFields (Generics.resolveChainOld chain args))),
                             ("wf", Generics.chainWf chain), ("closed", res.all (fun p => Generics.closed p.2))])
+      | "aggattr" => do
+          let strs (x : Json) : P (List String) := do (← arr x).toList.mapM str
+          let spec : Agg.Spec := { aliases := ← strs (← j.getObjVal? "aliases"),
+                                   flattened := ← (← arr (← j.getObjVal? "flattened")).toList.mapM strs,
+                                   additional := ← bool' (← j.getObjVal? "additional") }
+          -- a pattern is given by the keys of the datum it matches (computed by Python's `re`)
+          let pats ← (← arr (← j.getObjVal? "patterns")).toList.mapM strs
+          let keys ← strs (← j.getObjVal? "keys")
+          let a := Agg.attrib spec (pats.map (fun ms => fun k => ms.contains k)) keys
+          let ll (xs : List (List String)) : Json := Json.arr (xs.map (fun g => Json.arr (g.map Json.str).toArray)).toArray
+          pure (Json.mkObj [("id", id), ("flattened", ll a.flattened), ("matched", ll a.matched),
+                            ("additional", match a.additional with | some g => Json.arr (g.map Json.str).toArray | Option.none => Json.null),
+                            ("unexpected", Json.arr (a.unexpected.map Json.str).toArray)])
       | op => throw s!"unknown op {op}"
     match r with
     | .ok j => j.compress
